@@ -29,7 +29,9 @@ _RULE = (
     "constraint cases, standalone x {internal, external subset, external PE, INCLUDE section} x 19 scenarios. Single-document spaces run under 7 "
     "subset placements (internal, external, split, internal PE, external PE, INCLUDE section, INCLUDE via PE + IGNOREd conflicting declaration) "
     "(quick attr/idref: internal + one other placement per case, round-robin) and compare the event dump between validation never/always/auto and between placements. (place) <= 2-leaf models x sequences <= 2 (thorough 3) "
-    "under all 7 placements. distinct_nontrivial = (model, child sequence) instances + single documents whose verdict was compared with the reference."
+    "under all 7 placements. (reuse) every sequence of <= 2 (thorough 3) parses, on ONE parser object, of 10 documents with > 64 declared and specified attributes, missing #REQUIRED "
+    "attributes and defaults x {no caching, cacheGrammarFromParse+useCachedGrammarInParse, preloaded grammar} x {SAXParser, SAX2, DOM}: the events and errors of each parse "
+    "must equal those of a fresh parser (driver shared with C15). distinct_nontrivial = (model, child sequence) instances + single documents whose verdict was compared with the reference."
 )
 
 SPEC = dict(
@@ -84,6 +86,9 @@ SPEC = dict(
             dict(name="idref-3elems-small", driver=D, args=["--space", "idref", "--elems", 3, "--small", 1, "--placerotate", 1]),
             dict(name="vc", driver=D, args=["--space", "vc"]),
             dict(name="place-le2leaves-k2", driver=D, args=["--space", "place", "--maxleaves", 2, "--k", 2, "--cfgmask", "0x81"]),
+            # the verdict of a document must not depend on what the same parser object validated before: every sequence of <= 2 parses of documents
+            # with > 64 declared/specified attributes, missing #REQUIRED attributes and defaults (shared with C15), against a fresh parser
+            dict(name="reused-parser-wide-attlists-depth2", driver="histx", args=["--space", "growth", "--depth", 2]),
         ],
         thorough=[
             dict(name="witness", driver=D, args=["--space", "witness"], workers=2),
@@ -101,6 +106,7 @@ SPEC = dict(
             dict(name="idref-3elems", driver=D, args=["--space", "idref", "--elems", 3, "--deadline", 60]),
             dict(name="vc", driver=D, args=["--space", "vc"]),
             dict(name="place-le2leaves-k3", driver=D, args=["--space", "place", "--maxleaves", 2, "--k", 3, "--cfgmask", "0x81", "--deadline", 60]),
+            dict(name="reused-parser-wide-attlists-depth3", driver="histx", args=["--space", "growth", "--depth", 3]),
         ],
     ),
     manifest=dict(
